@@ -65,6 +65,12 @@ def run(ctx):
             memo_store = n
     ctx.require(key_var, f'no store into {MEMO} found in {Q}')
     key_assigns = assigns_to(new, key_var)
+    lossy = [a for a in key_assigns if isinstance(a.value, ast.Call) and dotted(a.value.func) in ('hash', 'repr', 'str', 'id')]
+    ctx.ob('C17.R3', f'{Q}:memo-key-lossless', W(lossy[0]) if lossy else W(memo_store),
+           'the memo table is keyed by the option values themselves, not by a hash / repr / id standing in for them '
+           '(unequal option sets may collide: hash(-1) == hash(-2))', not lossy,
+           f'`{norm(lossy[0])[:80]}`: two different configurations with colliding keys are one object, and the second is '
+           f'never validated' if lossy else '')
     ctx.require(len(key_assigns) == 1 and isinstance(key_assigns[0].value, ast.Tuple),
                 f'{Q}: the memo key {key_var} is not a single tuple display')
     key_assign = key_assigns[0]
@@ -486,3 +492,16 @@ def _publication_and_key_hash(ctx, MEMO, Q):
     eqs = [f for f in ast.walk(fcls) if isinstance(f, ast.FunctionDef) and f.name == '__eq__']
     ctx.ob('C17.R7', 'FrozenDict.__eq__:inherited', fm.where(eqs[0]) if eqs else fm.where(hf),
            'equality is the inherited dict equality (what the hash rule above is stated against)', not eqs, 'FrozenDict overrides __eq__')
+
+    # ---- R8 ----------------------------------------------------------------------
+    # an invalid combination of is_pep484_tower and hint_overrides is rejected uniformly: the tower merge, interpreted
+    # over every combination of {absent, restating the tower, conflicting} user entries for float × complex
+    # (shared with C18.R3)
+    ctx.rule('C17.R8', 'is_pep484_tower with a conflicting user override for float or for complex is rejected with '
+             'BeartypeConfParamException in every combination with the other entry (absent / restating the tower / '
+             'conflicting) and with unrelated entries; non-conflicting combinations yield the user\'s overrides plus the tower')
+    from .c18 import _tower_merge
+    om = repo.mod('beartype._conf._confoverrides')
+    sf = om.defs.get('sanify_conf_kwargs_is_pep484_tower')
+    ctx.require(sf is not None, 'anchor vanished: sanify_conf_kwargs_is_pep484_tower')
+    _tower_merge(ctx, om, sf, 'C17.R8')
